@@ -83,11 +83,21 @@ func genC18File(r *rng, broken bool) string {
 }
 
 func c18Encode(mode string, limit int, names, contents []string) string {
+	return c18EncodeL(mode, limit, false, names, contents)
+}
+
+// link: the paths given to knut are symbolic links (in the target directory) to the journal
+// files, which live in a subdirectory -- journals are often symlinked into a working directory
+func c18EncodeL(mode string, limit int, link bool, names, contents []string) string {
 	var fs []string
 	for i := range names {
 		fs = append(fs, vesc(names[i]), vesc(contents[i]))
 	}
-	return fmt.Sprintf("mode=%s;limit=%d;files=%s", mode, limit, strings.Join(fs, "|"))
+	l := ""
+	if link {
+		l = "link=1;"
+	}
+	return fmt.Sprintf("mode=%s;limit=%d;%sfiles=%s", mode, limit, l, strings.Join(fs, "|"))
 }
 
 func c18Formatted(path string) (string, bool) {
@@ -152,6 +162,14 @@ func genC18(out *caseWriter, seed uint64, n int, args []string) error {
 		if rodir && g%8 == 0 {
 			out.add(fmt.Sprintf("C18r-%d-%d", seed, g), "C18.fault", c18Encode("rodir", 0, names, contents))
 		}
+		if g%2 == 0 {
+			// the same group reached through symbolic links (seeded change C18-symlink-write-through
+			// was missed without these): one traced run, faults at 0, 1 and three random offsets
+			out.add(fmt.Sprintf("C18tl-%d-%d", seed, g), "C18.trace", c18EncodeL("strace", 0, true, names, contents))
+			for p, limit := range []int{0, 1, r.intn(maxLen), r.intn(maxLen), r.intn(maxLen)} {
+				out.add(fmt.Sprintf("C18fl-%d-%d-%d", seed, g, p), "C18.fault", c18EncodeL("rlimit", limit, true, names, contents))
+			}
+		}
 	}
 	return nil
 }
@@ -179,10 +197,26 @@ func obsC18(in string) string {
 	}()
 	var paths []string
 	orig := map[string]bool{}
+	link := kv["link"] == "1"
+	if link {
+		if err := os.Mkdir(filepath.Join(dir, "real"), 0o755); err != nil {
+			panic(err)
+		}
+		orig["real"] = true
+	}
 	for _, f := range files {
 		p := filepath.Join(dir, f[0])
-		if err := os.WriteFile(p, []byte(f[1]), 0o644); err != nil {
+		w := p
+		if link {
+			w = filepath.Join(dir, "real", f[0])
+		}
+		if err := os.WriteFile(w, []byte(f[1]), 0o644); err != nil {
 			panic(err)
+		}
+		if link {
+			if err := os.Symlink(filepath.Join("real", f[0]), p); err != nil {
+				panic(err)
+			}
 		}
 		paths = append(paths, p)
 		orig[f[0]] = true
@@ -247,6 +281,12 @@ func obsC18(in string) string {
 			class = "new"
 		case string(after) == f[1]:
 			class = "old"
+		}
+		if link && class != "other" && class != "missing" {
+			// the journal behind the link must be whole as well
+			if real, err := os.ReadFile(filepath.Join(dir, "real", f[0])); err != nil || !(string(real) == f[1] || (parses[i] && string(real) == news[i])) {
+				class = "other"
+			}
 		}
 		finals = append(finals, f[0]+":"+class)
 		p := "0"
